@@ -487,6 +487,11 @@ func DownloadFolderHandler(rwc io.ReadWriter, fullPath string, fileTransfer *Fil
 			return fmt.Errorf("error opening file: %w", err)
 		}
 
+		// When the client resumes a file, send the data fork from the requested offset; the size announced above already excludes the skipped bytes.
+		if _, err := file.Seek(dataOffset, io.SeekStart); err != nil {
+			return fmt.Errorf("error seeking to resume offset: %w", err)
+		}
+
 		// wr := bufio.NewWriterSize(rwc, 1460)
 		if _, err = io.Copy(rwc, io.TeeReader(file, fileTransfer.bytesSentCounter)); err != nil {
 			return fmt.Errorf("error sending file: %w", err)
